@@ -32,6 +32,9 @@ SCN = {
     "U-set": ("U", 0, "members", 1),       # Company.members  : Set[Person]       (inverse member_of)
     "N-list": ("N", 0, "a", 0),            # Node.a : List[Node]                  (sub-property of top)
     "N-set": ("N", 0, "b", 0),             # Node.b : Set[Node]
+    "Q-items": ("Q", 2, "items", 0),       # QTeam.items : List[QItem]   owner falsy while empty and iterable, even elements falsy
+    "Q-plains": ("Q", 3, "plains", 1),     # QLeague.plains : List[QPlain]   elements of an eq=True dataclass: no hash
+    "Q-teams": ("Q", 3, "teams", 2),       # QLeague.teams : List[QTeam]   elements that define __iter__ / __len__
     "N-list-tr": ("N", 0, "anc", 0),       # Node.anc : List[Node], transitive with inverse desc (inference writes back into the field)
 }
 NELEM = 4
@@ -41,17 +44,19 @@ TWIN_CLASS = 2       # index of c15.Twin in family N
 CASE_TIMEOUT_S = 2.0   # CPU-time guard per case (ITIMER_VIRTUAL: immune to machine load; a non-terminating write is CPU-bound)
 VIEW_OPS_LIST = ["AssignRev", "AssignIter", "AssignChain", "AssignFilter"]
 VIEW_OPS_SET = ["AssignIter", "AssignChain", "AssignFilter"]
-LIST_OPS = VIEW_OPS_LIST + ["Assign", "AssignSelf", "IAug", "Append", "Extend", "ExtendGen", "ExtendSelf", "Insert", "SetItem", "SetSlice", "SetSliceGen"]
-SET_OPS = VIEW_OPS_SET + ["Assign", "AssignList", "AssignSelf", "IAug", "Add", "Update", "Update2"]
+LIST_OPS = VIEW_OPS_LIST + ["IAugAlias", "Assign", "AssignSelf", "IAug", "Append", "Extend", "ExtendGen", "ExtendSelf", "Insert", "SetItem", "SetSlice", "SetSliceGen"]
+SET_OPS = VIEW_OPS_SET + ["IAugAlias", "Assign", "AssignList", "AssignSelf", "IAug", "Add", "Update", "Update2"]
 
 
 def kind_of(scn: str) -> str:
+    _register_family_q()
     fam = c15.families()[SCN[scn][0]]
     f = field_id(scn)
     return fam.kind[f]
 
 
 def field_id(scn: str) -> int:
+    _register_family_q()
     famk, oc, name, _ = SCN[scn]
     fam = c15.families()[famk]
     return [i for i, (c, n, _) in enumerate(fam.flds) if c == oc and n == name][0]
@@ -155,6 +160,14 @@ def run_impl(descr) -> Dict[str, Any]:
                     aug(name, "+=")(owner, vals)
                 else:
                     aug(name, "|=")(owner, set(vals))
+            elif k == "IAugAlias":             # the in-place operator through another reference to the container
+                vals = [elems[i] for i in args[0]]
+                alias = getattr(owner, name)
+                if kind == "list":
+                    alias += vals
+                else:
+                    alias |= set(vals)
+                del alias
             elif k == "Append":
                 getattr(owner, name).append(elems[args[0]])
             elif k == "Extend":
@@ -391,6 +404,12 @@ QLeague.plains = QHasPlain(QLeague, "plains")
 QLeague.teams = QHasTeam(QLeague, "teams")
 
 
+def _register_family_q():
+    fams = c15.families()
+    if "Q" not in fams:
+        fams["Q"] = c15.Family("Q", [QItem, QPlain, QTeam, QLeague], {}).analyse()
+
+
 def run_quirk(descr) -> Dict[str, Any]:
     """every element that is in the field afterwards must have its relation: [names in the field], [names recorded], exception"""
     SymbolGraph().clear()
@@ -434,40 +453,40 @@ def run_quirk(descr) -> Dict[str, Any]:
 
 
 def run_trans(descr) -> Dict[str, Any]:
-    """writes on a TRANSITIVE list field (Node.anc, inverse desc) of the FIRST symbol of a fresh graph, which already has incoming and
-    outgoing relations elsewhere: the final graph must be the C15 closure of all asserted facts"""
-    fam = c15.families()["N"]
+    """writes on a TRANSITIVE list field without inverse (Org.part_of) of the FIRST symbol of a fresh graph, which already has incoming
+    and outgoing relations elsewhere: the final graph must be the C15 closure of all asserted facts"""
+    fam = c15.families()["O"]
     SymbolGraph().clear()
     SymbolGraph()
-    objs = [c15.Node(f"o{i}") for i in range(NELEM + 1)]      # the owner is object 0: node index 0 of the instance graph
+    objs = [c15.Org(f"o{i}") for i in range(NELEM + 1)]       # the owner is object 0: node index 0 of the instance graph
     owner = objs[0]
     exc = 0
     for s, t_ in descr["pre"]:
-        objs[s].anc.append(objs[t_])
+        objs[s].part_of.append(objs[t_])
     try:
         for op in descr["ops"]:
             if op[0] == "append":
-                owner.anc.append(objs[op[1]])
+                owner.part_of.append(objs[op[1]])
             elif op[0] == "extend":
-                owner.anc.extend([objs[i] for i in op[1]])
+                owner.part_of.extend([objs[i] for i in op[1]])
             elif op[0] == "insert":
-                owner.anc.insert(op[1], objs[op[2]])
+                owner.part_of.insert(op[1], objs[op[2]])
             elif op[0] == "iadd":
-                aug("anc", "+=")(owner, [objs[i] for i in op[1]])
+                aug("part_of", "+=")(owner, [objs[i] for i in op[1]])
             elif op[0] == "assign_first":
-                owner.anc = [objs[i] for i in op[1]]
+                owner.part_of = [objs[i] for i in op[1]]
     except Exception as e:  # noqa
         exc = [99, f"{type(e).__name__}: {str(e)[:100]}"]
     ident = {id(o): i for i, o in enumerate(objs)}
     fid = {(fam.classes[ci], nm): i for i, (ci, nm, _) in enumerate(fam.flds)}
     E = sorted([ident.get(id(r.source.instance), -1), fid.get((r.wrapped_field.clazz.clazz, r.wrapped_field.public_name), -1),
                 ident.get(id(r.target.instance), -1)] for r in SymbolGraph().relations())
-    return {"E": E, "field": [ident[id(x)] for x in owner.anc], "exc": exc}
+    return {"E": E, "field": [ident[id(x)] for x in owner.part_of], "exc": exc}
 
 
 def trans_facts(d):
-    fam = c15.families()["N"]
-    f = [i for i, (c, n, _) in enumerate(fam.flds) if c == 0 and n == "anc"][0]
+    fam = c15.families()["O"]
+    f = [i for i, (c, n, _) in enumerate(fam.flds) if c == 0 and n == "part_of"][0]
     facts = [(s, f, t_) for s, t_ in d["pre"]]
     for op in d["ops"]:
         xs = [op[1]] if op[0] == "append" else [op[2]] if op[0] == "insert" else op[1]
@@ -555,6 +574,8 @@ def op_term(op) -> str:
         return "AssignSelf"
     if k == "IAug":
         return f"IAug {nl(args[0])}"
+    if k == "IAugAlias":
+        return f"IAugAlias {nl(args[0])}"
     if k == "Append":
         return f"Append {args[0]}"
     if k in ("Extend", "ExtendGen"):
@@ -625,7 +646,7 @@ def gen_case(rng: core.Rng, scn: str) -> dict:
         k = rng.choice(LIST_OPS if kind == "list" else SET_OPS)
         vs = [rng.randint(0, NELEM - 1) for _ in range(rng.randint(0, 3))]
         x = rng.randint(0, NELEM - 1)
-        if k in ("Assign", "AssignList", "IAug", "Extend", "ExtendGen", "Update"):
+        if k in ("Assign", "AssignList", "IAug", "IAugAlias", "Extend", "ExtendGen", "Update"):
             ops.append([k, vs])
         elif k == "ExtendSelf" and sum(1 for o in ops if o[0] == "ExtendSelf") >= 2:
             ops.append(["Append", x])          # keep the lists small: at most two doublings per history
@@ -649,8 +670,8 @@ def gen_case(rng: core.Rng, scn: str) -> dict:
 def gen_cases(tier: str, seed: int) -> List[dict]:
     rng = core.Rng(seed * 1000003 + 16)
     n = 2000 if tier == "quick" else 20000
-    scns = ["U-list", "U-set", "N-list", "N-set"]
-    out = [gen_case(rng, scns[i % 4]) for i in range(n)]
+    scns = ["U-list", "U-set", "N-list", "N-set", "U-list", "U-set", "N-list", "N-set", "Q-items", "Q-plains", "Q-teams"]
+    out = [gen_case(rng, scns[i % len(scns)]) for i in range(n)]
     # element churn: fresh elements each turn, the old ones die and their addresses are reused
     for i in range(6 if tier == "quick" else 40):
         scn = ["U-list", "U-set", "N-list"][i % 3]
@@ -713,7 +734,6 @@ def run(tier: str, seed: int, replay=None) -> int:
     rep.assume = [
         "the field is written by its owner with fresh arguments (lists, sets, generators) or with itself for assignment / += / |=; "
         "the generated histories write fields whose inferences go to OTHER fields (inverse, super-property); item assignment on a transitive field (inference writes back into the written list; C16-i, fixed) is replayed from its witnesses against the model setitem_then_infer",
-        "owners and elements are truthy, hashable and not iterable (the recording hook tests truthiness, builds a set of the value and iterates an iterable value: C16-k/l/m, replayed from witnesses); += / |= are written `owner.field += ...` (through another reference to the container they are the builtins: C16-n, refuted)",
         "reading a managed field with == is not modelled; K_container_eq (C16-h) is replayed from its witness",
         "a shallow copy of the owner shares the container (as plain Python does): writes through either owner's field must be recorded for that owner; plain assignment through the clone (C16-j, fixed e598545) is replayed as a regression witness and generated; the small model cstep is compared exactly",
         "elements of SET-valued fields are pairwise different under == (Python's own set semantics go by ==, the symbol graph by identity); twins are generated for list fields only",
@@ -722,7 +742,7 @@ def run(tier: str, seed: int, replay=None) -> int:
     ]
     rep.rule = ("random histories of 1-7 operations (assignment of a fresh list/set, self-assignment, += / |=, append, extend with a list, a generator or the field itself, "
                 "insert, item assignment and slice assignment (list or generator value) with indices in -4..5, add, update with 1 or 0-3 iterables) from random initial contents given to the constructor, "
-                "on Person.member_of, Company.members, Node.a, Node.b; assignment of LAZY views over the field itself (reversed, iter, chain, filtering generator); transitive families (writes on Node.anc of the first symbol of a fresh graph that already has incoming and outgoing relations; graph = C15 closure of all facts); churn families (40 turns of fresh elements whose predecessors die, so addresses are reused) and clone families (writes through a copy.copy of the owner); elements drawn with repetition from 4 objects (in the Node.a scenario objects 2 and 3 are distinct Twin objects that compare and hash equal; recording is checked per object identity); "
+                "on Person.member_of, Company.members, Node.a, Node.b and on fields of classes with user protocols (an owner that is falsy while empty and iterable, falsy elements, elements of an eq=True dataclass without hash, elements that define __iter__ / __len__); += / |= also through another reference to the container; assignment of LAZY views over the field itself (reversed, iter, chain, filtering generator); transitive families (writes on Org.part_of (transitive, no inverse) of the first symbol of a fresh graph that already has incoming and outgoing relations; graph = C15 closure of all facts); churn families (40 turns of fresh elements whose predecessors die, so addresses are reused) and clone families (writes through a copy.copy of the owner); elements drawn with repetition from 4 objects (in the Node.a scenario objects 2 and 3 are distinct Twin objects that compare and hash equal; recording is checked per object identity); "
                 "non-trivial = at least one operation changes the contents; distinct = distinct (scenario, initial contents, history)")
     ok_spec, log = core.coq_make(["Base/Sx.vo", "Onto/ContainerSpec.vo", "Onto/ClosureSpec.vo"])
     rep.oblige("build:spec", ok_spec, "" if ok_spec else core.first_error(log))
@@ -750,7 +770,7 @@ def run(tier: str, seed: int, replay=None) -> int:
         trans_terms = []
         for i in trans_i:
             _, facts_ = trans_facts(descrs[i])
-            cd = {"fam": "N", "pop": [[0, None]] * (NELEM + 1), "ops": [["x", s, f, [t_]] for s, f, t_ in facts_]}
+            cd = {"fam": "O", "pop": [[0, None]] * (NELEM + 1), "ops": [["x", s, f, [t_]] for s, f, t_ in facts_]}
             trans_terms.append(c15.spec_term(cd))
         trans_closure = dict(zip(trans_i, core.coq_values(PROP, c15.header(False), trans_terms, chunk=400, tag="trans"))) if trans_i else {}
         closures = core.coq_values(PROP, c15.header(False), inference_terms([descrs[i] for i in plain], [impls[i] for i in plain]),
@@ -906,6 +926,9 @@ def run(tier: str, seed: int, replay=None) -> int:
     rep.extra["model_mismatches"] = mism
     rep.extra["known_finding_instances"] = kf_instances
     return rep.finish()
+
+
+_register_family_q()
 
 
 def _worker():
